@@ -3,6 +3,7 @@ package sym
 import (
 	"fmt"
 	"go/types"
+	"os"
 	"path/filepath"
 	"strings"
 
@@ -101,6 +102,9 @@ func registerTime(t map[string]intrinsic) {
 // ---- verif runtime primitives ----
 
 var rtTable map[string]intrinsic
+
+// EvalModel, when set, makes vLog print values under this model on the path it satisfies.
+var EvalModel Model
 
 func isRTFile(ex *Exec, fn *ssa.Function) bool {
 	if fn.Synthetic != "" || !fn.Pos().IsValid() {
@@ -245,6 +249,26 @@ func registerRT(t map[string]intrinsic) {
 		return nil, nil
 	}
 	rt["vNote"] = noop
+	rt["vLog"] = func(ex *Exec, caller *frame, fn *ssa.Function, args []Value) (Value, *goPanic) {
+		if os.Getenv("VERIF_LOG") != "" {
+			if EvalModel != nil {
+				memo := map[int]uint64{}
+				sat := true
+				for _, l := range ex.pc {
+					if v, ok := Eval(l, EvalModel, memo); !ok || v == 0 {
+						sat = false
+					}
+				}
+				if sat {
+					v, ok := Eval(args[1].(*Term), EvalModel, memo)
+					fmt.Fprintf(os.Stderr, "vLog[model path] %s = #x%x ok=%v\n", ex.mustConcreteStr(args[0], "vLog"), v, ok)
+				}
+			} else {
+				fmt.Fprintf(os.Stderr, "vLog %s = %s\n", ex.mustConcreteStr(args[0], "vLog"), describe(args[1]))
+			}
+		}
+		return nil, nil
+	}
 	// vUF1/vUF2: an uninterpreted function of the arguments (same name + same
 	// arguments => same result, nothing else is known about it)
 	rt["vUF1"] = func(ex *Exec, caller *frame, fn *ssa.Function, args []Value) (Value, *goPanic) {
@@ -322,6 +346,22 @@ func (ex *Exec) assert(id string, c *Term) {
 		ex.St.Discharged++
 		ex.addPC(c)
 	case Sat:
+		// validate the model with the engine's own evaluator
+		memo := map[int]uint64{}
+		bad := ""
+		if v, ok := Eval(c, m, memo); ok && v != 0 {
+			bad = "assertion evaluates to true under the solver's model"
+		}
+		for _, l := range ex.pc {
+			if v, ok := Eval(l, m, memo); ok && v == 0 {
+				bad = "a path-condition literal evaluates to false under the solver's model"
+			}
+		}
+		if bad != "" {
+			ex.inconclusive = append(ex.inconclusive, "model validation failed on "+id+": "+bad)
+			ex.addPC(c)
+			return
+		}
 		ex.reportViolation(id, "assert", "assertion can fail", m)
 		// continue under the assumption that it held, to look further
 		if !ex.feasible(c) {
